@@ -117,12 +117,14 @@ ToStr(v, undefKind) ==
            IF undefKind = "strict" THEN Err("UndefinedError")
            ELSE IF undefKind = "debug" THEN Err("EXCLUDED")
            ELSE Ok(VStr(<<>>, FALSE))
-      [] v.t = "module" -> Ok(v.body)
+      [] v.t = "module" -> Ok(VStr(v.body.s, FALSE))        \* str(module): the rendered body, plain
       [] OTHER -> Err("EXCLUDED")
 
 \* escape(v): Markup stays, everything else is converted to text and escaped once
 Escape(v, undefKind) ==
     IF v.t = "str" /\ v.m THEN Ok(v)
+    ELSE IF v.t = "module" THEN Ok(VStr(v.body.s, TRUE))     \* module.__html__: the body as markup
+
     ELSE LET s == ToStr(v, undefKind) IN
          IF ~s.ok THEN s ELSE Ok(VStr(EscSegs(s.v.s), TRUE))
 
@@ -144,7 +146,7 @@ JoinMarkup(vs, uk) ==
          IF ~h.ok THEN h
          ELSE LET r == JoinMarkup(Tail(vs), uk) IN
               IF ~r.ok THEN r ELSE Ok(VStr(h.v.s \o r.v.s, TRUE))
-AnyMarkup(vs) == \E i \in 1..Len(vs) : vs[i].t = "str" /\ vs[i].m
+AnyMarkup(vs) == \E i \in 1..Len(vs) : (vs[i].t = "str" /\ vs[i].m) \/ vs[i].t = "module"
 
 \* a ~ b ~ c  under a given autoescape mode
 Concat(vs, auto, uk) ==
